@@ -158,6 +158,67 @@ class Program:
             p = os.path.join(self.root, rel)
             if os.path.exists(p):
                 self.go[rel] = open(p, encoding="utf-8").read()
+        self.pure_methods = self._pure_method_names()
+        from . import cfg as _cfg
+        _cfg.PURE_METHODS = self.pure_methods
+
+    # -- purity (used by the must-facts kill rule: a call of a pure method does not invalidate facts) ---
+    _PURE_BUILTINS = {"len", "sum", "all", "any", "str", "list", "tuple", "isinstance", "max", "min", "int", "float", "bool",
+                      "sorted", "enumerate", "range", "zip", "repr", "abs", "round", "set", "frozenset", "dict", "iter", "callable",
+                      "getattr", "hasattr", "id", "type"}
+
+    def _pure_method_names(self):
+        by_name: Dict[str, list] = {}
+        for m in self.modules.values():
+            for f in m.funcs.values():
+                by_name.setdefault(f.name, []).append(f)
+        pure = set(by_name)
+
+        def impure(f: Func, pure_now) -> bool:
+            for n in own_nodes(f.node):
+                if isinstance(n, (ast.Yield, ast.YieldFrom, ast.Await, ast.Global, ast.Nonlocal, ast.Raise)):
+                    if not isinstance(n, ast.Raise):
+                        return True
+                if isinstance(n, (ast.Assign, ast.AugAssign, ast.AnnAssign, ast.Delete)):
+                    tg = n.targets if isinstance(n, (ast.Assign, ast.Delete)) else [n.target]
+                    for t in tg:
+                        for x in ast.walk(t):
+                            if isinstance(x, (ast.Attribute, ast.Subscript)) and isinstance(getattr(x, "ctx", None), (ast.Store, ast.Del)):
+                                return True
+                if isinstance(n, ast.Call):
+                    fn = n.func
+                    if isinstance(fn, ast.Attribute):
+                        if fn.attr in ("append", "extend", "insert", "remove", "pop", "clear", "update", "setdefault", "sort", "add",
+                                       "discard", "popitem", "reverse", "write", "writerow", "info", "debug", "warning", "error"):
+                            # logging is output only; list mutation of a *local* list is fine
+                            if fn.attr in ("info", "debug", "warning", "error"):
+                                continue
+                            if isinstance(fn.value, ast.Name) and fn.value.id not in ("self",):
+                                continue
+                            return True
+                        if fn.attr in by_name and fn.attr not in pure_now:
+                            return True
+                        if fn.attr not in by_name and fn.attr not in ("items", "keys", "values", "get", "format", "join", "split", "strip",
+                                                                       "startswith", "endswith", "index", "count", "copy", "lower", "upper"):
+                            return True
+                    elif isinstance(fn, ast.Name):
+                        if fn.id in by_name:
+                            if fn.id not in pure_now:
+                                return True
+                        elif fn.id not in self._PURE_BUILTINS:
+                            return True
+                    else:
+                        return True
+            return False
+
+        changed = True
+        while changed:
+            changed = False
+            for name in sorted(pure):
+                if any(impure(f, pure) for f in by_name[name]):
+                    pure.discard(name)
+                    changed = True
+        return pure
 
     # -- template -------------------------------------------------------------------------------
     TEMPLATE_REL = "eudoxia/__main__.py#SCHEDULER_TEMPLATE"
